@@ -29,7 +29,7 @@ TEXT = {
     "C10": ("Proved: C10_response_roundtrip_limits / C10_request_roundtrip_limits (every well-formed value, any configured limits the lines fit, generic in the URI implementation under the URI law at the target), C10_*_regenerate, and the URI law of the rhymuri model for origin-form targets with arbitrary segment, query and fragment bytes (C10_request_roundtrip_origin), `*` (C10_request_roundtrip_star) and absolute-form targets scheme://[userinfo@]host[:port]/path?query#fragment with a lower-case registered-name host (C10_request_roundtrip_absolute, via Rhymuri.parse_display_absolute), with the percent-codec inverse for every byte string. IP-literal hosts and relative references: correspondence (model = implementation on the URI grammar) and the implementation-side round-trip oracle. Known finding KF3 (rhymuri display/parse).",
             "full for responses; requests under the URI law, proved for origin-form, * and reg-name absolute-form targets (dependency finding KF3 where the law fails)"),
     "C11": ("Proved: C11_request_reparse — for every accepted request (any method the parser accepts, non-ASCII included; any limits on the first parse; any limits the regenerated line and total fit on the second) generate + parse returns the same method, target, header list and body with the whole output consumed, under the URI law at the parsed target (proved for the rhymuri model on reg-name absolute-form targets, C11_request_reparse_absolute, and on origin-form paths: C11_request_reparse_rhymuri); C11_response_reparse_plain (declared-length and body-less responses, any reason phrase, any header line limit) and C11_response_reparse_dechunked (the de-chunked message regenerates to a Content-Length-framed message with Content-Length = length of the de-chunked body that parses back to the same fields); C11_headers_reparse. Supporting: UTF-8 validity survives a cut at an ASCII byte (validUtf8_cut_left, validUtf8_ascii_append, against core's IsValidUTF8), well-formedness of the rewritten header list (rewritten_wf). Known finding KF3 (rhymuri display/parse) is where the URI law fails.",
-            "full for responses; requests under the URI law (dependency finding KF3 where it fails)"),
+            "full where the re-serialised header lines fit the line limit (folded lines: dependency finding KF4); requests under the URI law (dependency finding KF3 where it fails)"),
     "C12": ("Proved by header-list algebra for every original header list, every list of other codings and every trailer list: C12_content_length, C12_transfer_encoding, C12_no_trailer, C12_others; plus an independent post-condition checker on the implementation.",
             "full"),
     "C13": ("Proved for every DEFLATE stream: canonical Huffman decoding is correct for every table of code lengths (decodeSym_canon), the symbol loop for any pair of code books (inflateCodes_book), dynamic block headers with any run-length coded tables (dynamicBlock_spec), stored blocks from any bit offset (storedBlock_spec), any sequence of stored / fixed / dynamic blocks (inflateBlocks_blocks), bare, in gzip (with any optional header fields: C13_gzip_bytes_opt) and in zlib, for byte strings with arbitrary padding bits (C13_inflateRaw_bytes, C13_gzip_bytes, C13_zlib_bytes, sniff_blocks), and at decode_body for every stack of codings each written by ANY conforming encoder (C13_decodeBody_every_encoder; a Deflater is any function to block sequences that respects the format and expands to the body). Non-vacuity against real zlib output: Hm/C13Example (kernel-evaluated) and the encoder-spec family of the check (every level / strategy / flush pattern: description satisfies Block.Ok, re-encodes bit for bit, expands to the data). Fidelity of the inflate model to flate2/miniz_oxide: correspondence.",
